@@ -17,6 +17,9 @@ K1 = {
     "remainder_shape_int":      ("quick", ["C09"], "proof", None, 600),
     "power_int":                ("thorough", ["C09"], "proof", None, 3600),   # measured 587 s
     "power_undefined_int":      ("quick", ["C09"], "proof", None, 600),
+    # measured 103 s: the induction step over the exponent (one more factor: exact when it fits, undefined from then on), every base;
+    # with power_undefined_int's base cases it gives exactness for exponents 0..=31 - labelled bounded because of the exponent range
+    "power_small_exponent_int": ("quick", ["C09"], "bounded", "every base (all of i32), exponents 2..=31; the loop of i32::overflowing_pow is unwound completely for these exponents (unwinding assertion on); exponents >= 32 are covered by power_int (thorough tier) only", 900),
     "power_no_panic_int":       ("quick", ["C09"], "proof", None, 900),
     "zero_divisor_is_none":     ("quick", ["C09"], "proof", None, 900),
     "results_are_finite":       ("quick", ["C09"], "proof", None, 1500),
